@@ -20,7 +20,7 @@
                               find_raw_conflicts, apply (node level), _inventory_altered,
                               _generate_inventory_delta}, InventoryPreviewTree.{path2id, extras,
                               _make_inv_entries, iter_entries_by_dir, get_file}
-   (the code as of 4df7934: the preview repairs 2ecf5bb, 33f6199 and the resolver repair 4df7934 included)
+   (the code as of 3ace332: the preview repairs 2ecf5bb, 33f6199 and the resolver repairs 4df7934, 3ace332 included)
    Conventions: trans id k is the Python string "new-k"; every base-tree path has a trans id (entry i of
    [base] has trans id i, entry 0 is the root); ROOT_PARENT is [None] in [option tid]; python dicts are
    insertion-ordered association lists; python sets are duplicate-free lists (only used order-free).
@@ -444,12 +444,9 @@ Definition resolve_one (c : conflict) (t : tt) : res (tt * list rc) :=
       match tree_file_id x with
       | Some f => bind (op_version_file x f t) (fun t' => Ok (t', [[1; 6; zt x]%Z]))
       | None =>
-          (* since 4df7934: version_file(source=(tree, None)) fabricates an id from FinalPaths.get_path,
-             which recurses for ever when x is in a parent loop (loops are resolved later in the pass) *)
-          match final_path t x with
-          | None => Er "RecursionError"
-          | Some _ => bind (op_version_file x (gen_fid x) t) (fun t' => Ok (t', [[1; 6; zt x]%Z]))
-          end
+          (* since 4df7934 / 3ace332: a directory that never had a file id gets a fresh one, fabricated from
+             its final NAME (gen_file_id); the final path is not needed, so a pending parent loop is harmless *)
+          bind (op_version_file x (gen_fid x) t) (fun t' => Ok (t', [[1; 6; zt x]%Z]))
       end
   | CNonDirParent p =>
       match final_parent t p with
